@@ -300,7 +300,9 @@ func variants(thorough bool) []variant {
 	add("flowControl", "no schemas", "unknown schema reference", func(o *proxyv1alpha1.UpstreamCluster) { o.Spec.FlowControl.Schemas = nil })
 	// ---- dispatch policies
 	for _, st := range []proxyv1alpha1.Strategy{proxyv1alpha1.RoundRobin, "", "x"} {
-		for _, sub := range []string{"none", "known", "unknown", "known+unknown"} {
+		// near misses of a known endpoint are unknown endpoints too: the data plane looks a subset entry up by the exact
+		// string of spec.servers[].endpoint
+		for _, sub := range []string{"none", "known", "unknown", "known+unknown", "unknown:trailing-slash", "unknown:upper-case-host", "unknown:other-scheme", "unknown:empty-string", "known+unknown:trailing-slash"} {
 			for _, sn := range []string{"", "s", "unknown"} {
 				for _, rules := range []int{0, 1} {
 					for _, lm := range []proxyv1alpha1.LogMode{"", proxyv1alpha1.LogOn, proxyv1alpha1.LogOff, "bad"} {
@@ -321,6 +323,16 @@ func variants(thorough bool) []variant {
 								p.UpstreamSubset = []string{"https://127.0.0.1:9"}
 							case "known+unknown":
 								p.UpstreamSubset = []string{"https://127.0.0.1:1", "https://127.0.0.1:9"}
+							case "unknown:trailing-slash":
+								p.UpstreamSubset = []string{"https://127.0.0.1:1/"}
+							case "unknown:upper-case-host":
+								p.UpstreamSubset = []string{"HTTPS://127.0.0.1:1"}
+							case "unknown:other-scheme":
+								p.UpstreamSubset = []string{"http://127.0.0.1:1"}
+							case "unknown:empty-string":
+								p.UpstreamSubset = []string{""}
+							case "known+unknown:trailing-slash":
+								p.UpstreamSubset = []string{"https://127.0.0.1:2", "https://127.0.0.1:1//"}
 							}
 							if rules == 1 {
 								p.Rules = o.Spec.DispatchPolicies[0].Rules
